@@ -70,9 +70,16 @@ class World:
                 if shape.get("mapped") and shape.get("swap"):
                     # the mapped input and the default-valued parameter exchange their names on the wrapper (one call)
                     gn = gn.with_inputs(inp="acc", acc="inp")
+                ra = shape.get("rename_aux")
+                if shape.get("mapped") and ra == "before":
+                    gn = gn.with_inputs(aux="helper")               # ONE of the cloned broadcast inputs is renamed on the wrapper
                 if shape.get("mapped"):
                     cl = shape.get("clone")
+                    if isinstance(cl, list) and ra == "before":
+                        cl = ["helper" if c == "aux" else c for c in cl]
                     gn = gn.map_over("acc" if shape.get("swap") else "inp", "mark", clone=list(cl) if isinstance(cl, list) else bool(cl))   # every item is a run of the nested graph
+                if shape.get("mapped") and ra == "after":
+                    gn = gn.with_inputs(aux="helper")
                 g = Graph([gn] + ([side] if shape.get("side") else []))
             else:
                 g = Graph([node] + ([side] if shape.get("side") else []))
@@ -207,14 +214,15 @@ def verdicts(ctx, w, inputs, results, wit):
 _SHARED_RUNNERS = {}
 
 
-def replay_mapped(n, is_async, bind_at, via_runner_map, clone=False, swap=False):
+def replay_mapped(n, is_async, bind_at, via_runner_map, clone=False, swap=False, rename_aux=None):
     """The items of a map are runs of the mapped graph (sequential history 1..n of Isolation.tla):
     a mapping GraphNode (zip over inp/mark) or runner.map over the same nested graph."""
-    w = World(True, False, {"bind_at": bind_at, "mapped": not via_runner_map, "clone": clone, "swap": swap and not via_runner_map})
+    rename_aux = None if via_runner_map else rename_aux
+    w = World(True, False, {"bind_at": bind_at, "mapped": not via_runner_map, "clone": clone, "swap": swap and not via_runner_map, "rename_aux": rename_aux})
     marks = list(range(1, n + 1))
     inps = [[] for _ in marks]
     w.aux, w.aux2 = ["aux"], ["aux2"]          # broadcast values owned by the caller
-    values = {("acc" if swap and not via_runner_map else "inp"): inps, "mark": marks, "aux": w.aux, "aux2": w.aux2}
+    values = {("acc" if swap and not via_runner_map else "inp"): inps, "mark": marks, ("helper" if rename_aux else "aux"): w.aux, "aux2": w.aux2}
     # ONE runner per kind serves all these replays (graphs whose mapping node has the same name but another
     # configuration follow each other on it): nothing a runner keeps may carry over from one graph to the next
     runner = _SHARED_RUNNERS.setdefault(is_async, AsyncRunner() if is_async else SyncRunner())
@@ -361,12 +369,14 @@ def run(tier, seed):
         for is_async in (False, True):
             for bind_at in ("outer", "inner", "inner_renamed"):
                 for via in (False, True):
-                    for clone in (False, True, ["aux2"]):
+                    for clone in (False, True, ["aux2"], ["aux", "aux2"]):
                         if clone is True and bind_at == "outer" and not via:
                             continue      # clone=True asks for copies of ALL broadcast values of the mapping node; a value bound on the OUTER graph is one of them
                         swap = (not via) and clone is False and (n + len(bind_at)) % 2 == 0
-                        wit = {"items": n, "runner": "async" if is_async else "sync", "bind_at": bind_at, "via": "runner.map" if via else "mapping GraphNode", "clone": clone, "swap": swap}
-                        out = replay_mapped(n, is_async, bind_at, via, clone, swap)
+                        # a clone LIST of which one entry is renamed on the wrapper (before / after map_over) and one is not
+                        ra = None if via or not isinstance(clone, list) else (None, "before", "after")[(n + len(bind_at) + len(clone)) % 3]
+                        wit = {"items": n, "runner": "async" if is_async else "sync", "bind_at": bind_at, "via": "runner.map" if via else "mapping GraphNode", "clone": clone, "swap": swap, "rename_aux": ra}
+                        out = replay_mapped(n, is_async, bind_at, via, clone, swap, ra)
                         ctx.count()
                         ctx.traces()
                         ctx.distinct(json.dumps(wit, sort_keys=True))
